@@ -13,14 +13,18 @@ EXTENDS Integers, FiniteSets, Sequences, TLC, Json, IOUtils
 Hist  == ndJsonDeserialize(IOEnv.TRACE)
 NHist == Len(Hist)
 
-RuleTab == [ r1 |-> [type |-> "T1", op |-> ">",  c |-> 2, noLoop |-> TRUE],
-             r2 |-> [type |-> "T1", op |-> "<=", c |-> 2, noLoop |-> TRUE],
-             r3 |-> [type |-> "T2", op |-> "==", c |-> 4, noLoop |-> TRUE],
-             r4 |-> [type |-> "T1", op |-> ">",  c |-> 0, noLoop |-> FALSE],
-             r5 |-> [type |-> "T1", op |-> ">=", c |-> 4, noLoop |-> TRUE],
-             r6 |-> [type |-> "T1", op |-> "<",  c |-> 6, noLoop |-> TRUE] ]
+RuleTab == [ r1 |-> [type |-> "T1", fld |-> "a", op |-> ">",  c |-> 2, cs |-> "", noLoop |-> TRUE],
+             r2 |-> [type |-> "T1", fld |-> "a", op |-> "<=", c |-> 2, cs |-> "", noLoop |-> TRUE],
+             r3 |-> [type |-> "T2", fld |-> "a", op |-> "==", c |-> 4, cs |-> "", noLoop |-> TRUE],
+             r4 |-> [type |-> "T1", fld |-> "a", op |-> ">",  c |-> 0, cs |-> "", noLoop |-> FALSE],
+             r5 |-> [type |-> "T1", fld |-> "a", op |-> ">=", c |-> 4, cs |-> "", noLoop |-> TRUE],
+             r6 |-> [type |-> "T1", fld |-> "a", op |-> "<",  c |-> 6, cs |-> "", noLoop |-> TRUE],
+             r7 |-> [type |-> "T2", fld |-> "s", op |-> "==", c |-> 0, cs |-> "A ", noLoop |-> TRUE],     \* literals with whitespace at the edge
+             r8 |-> [type |-> "T2", fld |-> "s", op |-> "!=", c |-> 0, cs |-> " ", noLoop |-> TRUE] ]
 Cmp(op, x, c) == CASE op = ">" -> x > c [] op = "<=" -> x <= c [] op = "==" -> x = c [] op = ">=" -> x >= c [] op = "<" -> x < c
-Sat(r, f) == f.type = RuleTab[r].type /\ Cmp(RuleTab[r].op, f.a, RuleTab[r].c)
+Sat(r, f) == /\ f.type = RuleTab[r].type
+             /\ IF RuleTab[r].fld = "a" THEN Cmp(RuleTab[r].op, f.a, RuleTab[r].c)
+                ELSE (IF RuleTab[r].op = "==" THEN f.s = RuleTab[r].cs ELSE f.s # RuleTab[r].cs)      \* strings compare exactly
 
 VARIABLES h, i,
           wm,          \* set of [h, type, a]: live facts according to the spec
@@ -47,9 +51,9 @@ Init == TLCSet(1, 1) /\ h = 1 /\ i = 1 /\ wm = {} /\ maxh = 0 /\ dead = {} /\ fi
 TypeOf(hh) == LET S == {f \in wm : f.h = hh} IN IF S = {} THEN "none" ELSE (CHOOSE f \in S : TRUE).type
 Keep == UNCHANGED <<firedRules, firing, runFired, pure, wm0, fired0>>
 Insert == /\ E.ev = "insert" /\ ~firing /\ E.h > maxh /\ maxh' = E.h /\ dead' = dead       \* fresh, never reused
-          /\ wm' = wm \cup {[h |-> E.h, type |-> E.type, a |-> E.a]} /\ Keep /\ ViewsAgree(wm') /\ quiet' = quiet \ {E.type}
+          /\ wm' = wm \cup {[h |-> E.h, type |-> E.type, a |-> E.a, s |-> E.s]} /\ Keep /\ ViewsAgree(wm') /\ quiet' = quiet \ {E.type}
 Update == /\ E.ev = "update" /\ ~firing /\ E.ok = (E.h \in Live(wm)) /\ UNCHANGED <<maxh, dead>>
-          /\ wm' = IF E.ok THEN {IF f.h = E.h THEN [f EXCEPT !.a = E.a] ELSE f : f \in wm} ELSE wm
+          /\ wm' = IF E.ok THEN {IF f.h = E.h THEN [f EXCEPT !.a = E.a, !.s = E.s] ELSE f : f \in wm} ELSE wm
           /\ Keep /\ ViewsAgree(wm') /\ quiet' = quiet \ {TypeOf(E.h)}
 Retract == /\ E.ev = "retract" /\ ~firing /\ E.ok = (E.h \in Live(wm)) /\ UNCHANGED maxh
            /\ dead' = IF E.ok THEN dead \cup {E.h} ELSE dead
